@@ -1,4 +1,4 @@
-import H2V.Lemmas.ConnWakePConn
+import H2V.Lemmas.ConnWakePTask2
 /-
   C06 — progress: no lost wake-up.  Property theorems only; lemmas and definitions in
   `H2V/Lemmas/ConnWakeP*.lean` (see ConnWakePNOTES.md).
@@ -17,7 +17,7 @@ import H2V.Lemmas.ConnWakePConn
   "Closed is absorbing, conn_error is sticky, the connection task is unchanged or taken and woken".
 -/
 namespace H2V.Props.C06
-open H2V H2V.Model H2V.Model.Conn H2V.Lemmas.ConnWakeP
+open H2V H2V.Model H2V.Model.Conn H2V.Lemmas.ConnWakeP H2V.Lemmas.Comp
 
 /-- **(B)+(C) for ALL operations.**  Every operation of the stream layer other than the `poll_*` functions —
     every received frame, settings change, `poll_complete`'s `buffer_pending`, teardown, and every handle
@@ -156,6 +156,26 @@ example : (exOpen.stream 0).state.isReset = false ∧ (exOpen.stream 0).isSendRe
     ((exOpen.stream 0).state.isClosed && ((exOpen.stream 0).pendingSend.isEmpty && (exOpen.stream 0).bufferedSendData == 0)) = false := by
   decide
 
+/-- (D) `send_data` from a handle (ok) on a stream that may send: the connection task is woken — or the
+    stream has buffered DATA and not one octet of send capacity (`NoCapacity`): nothing is sendable, and
+    `try_assign_capacity` schedules the stream when capacity arrives -/
+theorem send_data_wakes_connection_or_has_no_capacity (s : Streams) (k len : Nat) (eos : Bool)
+    (hok : (s.refSendData k len eos).2 = .ok ()) (hr : (s.stream k).isSendReady = true) :
+    TaskWoken s (s.refSendData k len eos).1 ∨ NoCapacity (s.refSendData k len eos).1 k :=
+  refSendData_woken hok hr
+
+example : (exOpen.refSendData 0 10 false).2 = .ok () ∧ (exOpen.stream 0).isSendReady = true := by decide
+
+/-- (D) the LAST handle of a stream that is not closed is dropped (the application lost interest
+    mid-flight): the implicit reset is scheduled and the connection task is woken -/
+theorem drop_last_handle_wakes_connection (s : Streams) (k : Nat) (h1 : (s.stream k).refCount = 1)
+    (hc : (s.stream k).state.isClosed = false) (hr : (s.stream k).isSendReady = true) :
+    TaskWoken s (s.dropStreamRef k) :=
+  dropStreamRef_woken h1 hc hr
+
+example : ((exOpen.dropStreamRef 0).stream 0).refCount = 1 ∧ ((exOpen.dropStreamRef 0).stream 0).state.isClosed = false ∧
+    ((exOpen.dropStreamRef 0).stream 0).isSendReady = true := by decide
+
 /-- (D) `reserve_capacity` that gives capacity back (it is handed to the streams waiting for it, which
     are scheduled).  BEFORE fix 6a8a003 (finding F27, found with this model and reproduced on the real
     code) nobody woke the connection task here: buffered DATA of another stream was sendable and stayed
@@ -238,6 +258,8 @@ end H2V.Props.C06
 #print axioms H2V.Props.C06.send_request_wakes_connection
 #print axioms H2V.Props.C06.send_headers_and_trailers_wake_connection
 #print axioms H2V.Props.C06.send_reset_wakes_connection
+#print axioms H2V.Props.C06.send_data_wakes_connection_or_has_no_capacity
+#print axioms H2V.Props.C06.drop_last_handle_wakes_connection
 #print axioms H2V.Props.C06.reserve_capacity_release_wakes_connection
 #print axioms H2V.Props.C06.reserve_capacity_release_wakes_connection_example
 #print axioms H2V.Props.C06.release_capacity_wakes_connection
